@@ -103,7 +103,7 @@ def _stage(draw, cur):
         kind = draw(st.sampled_from(['append', 'extend', 'prev', 'append', 'prev']))
         if kind in ('append', 'extend'):
             mode = draw(st.sampled_from(['list'] * 5 + ['missing', 'nonlist', 'nonlist']))
-            inlist_ok = draw(st.integers(0, 5)) == 0       # targets addressed through a list index: open finding, kept as a small class
+            inlist_ok = draw(st.integers(0, 2)) == 0       # targets addressed through a list index (was an open finding until R55)
             cand = [p for p in paths if isinstance(_get(cur, p), list) and (inlist_ok or not through_list(cur, p))] if mode == 'list' else \
                 [p for p in paths if not isinstance(_get(cur, p), list)] if mode == 'nonlist' else []
             named = [p for p in cand if isinstance(_get(cur, p), dict) and ('extend' in _get(cur, p) or 'append' in _get(cur, p))]
@@ -311,20 +311,9 @@ def _in_list_target(op, cur):
 
 
 def run_case(case):
-    try:
-        return _run_case(case)
-    except Violation as v:
-        if v.finding is None:
-            raise
-        # counterfactual: drop the operators that trigger the open finding (targets addressed through a list index);
-        # only if the rest of the history then satisfies the property is the violation attributed to the finding
-        cf = {'base': case['base'], 'stages': [{'ops': [op for op in s['ops'] if not _in_list_target(op, None)], 'sib': s['sib']} for s in case['stages']]}
-        try:
-            _run_case(cf)
-        except Violation as v2:
-            v2.finding = None
-            raise v2
-        raise
+    # (until R55 a violation in a history with operators aimed into a list was attributed to an open finding by a counterfactual run
+    # without them; the finding is repaired, every violation is a violation)
+    return _run_case(case)
 
 
 def _run_case(case):
@@ -362,7 +351,7 @@ def _run_case(case):
         labels.add('append-target-inside-list')
     src = '\nsources:\n' + '\n'.join(texts)
     status, got = O.try_call(O.build_config, texts)
-    fid = 'append-inside-list' if in_list_append else None
+    fid = None
     if fail is not None:
         labels.add('expect-' + fail[0])
         if status == 'ok':
